@@ -13,22 +13,22 @@ def main():
     tier = vlib.tier_arg(sys.argv)
     rep = vlib.Report("C04", tier, "model_checking")
     binary = build_broker()
+    U = "all interleavings (unbounded preemptions, sleep-set reduction)"
     if tier == "quick":
         passes = [
-            {"harness": "c04", "cfg": {"P": "1", "C": "1"}, "bound": -1, "label": "1 proxy x 1 client, unbounded preemptions"},
-            {"harness": "c04", "cfg": {"P": "1", "C": "2"}, "bound": 2, "label": "1 proxy x 2 clients, pb<=2", "budget_s": 30},
-            {"harness": "c04", "cfg": {"P": "2", "C": "1"}, "bound": 2, "label": "2 proxies x 1 client, pb<=2", "budget_s": 30},
-            {"harness": "c04", "cfg": {"P": "2", "C": "2", "beh": "4"}, "bound": 1, "label": "2 proxies x 2 clients, pb<=1", "budget_s": 30},
+            {"harness": "c04", "cfg": {"P": "1", "C": "1"}, "label": "1 proxy x 1 client: " + U},
+            {"harness": "c04", "cfg": {"P": "1", "C": "2"}, "label": "1 proxy x 2 clients: " + U, "budget_s": 30},
+            {"harness": "c04", "cfg": {"P": "2", "C": "1"}, "label": "2 proxies x 1 client: " + U, "budget_s": 30},
+            {"harness": "c04", "cfg": {"P": "2", "C": "2", "beh": "4"}, "label": "2 proxies x 2 clients (4 answer behaviours): " + U, "budget_s": 40},
         ]
         total = 100
     else:
         passes = [
-            {"harness": "c04", "cfg": {"P": "1", "C": "1"}, "bound": -1, "label": "1 proxy x 1 client, unbounded preemptions"},
-            {"harness": "c04", "cfg": {"P": "1", "C": "2"}, "bound": 2, "label": "1 proxy x 2 clients, pb<=2", "budget_s": 120},
-            {"harness": "c04", "cfg": {"P": "2", "C": "1"}, "bound": 2, "label": "2 proxies x 1 client, pb<=2", "budget_s": 120},
-            {"harness": "c04", "cfg": {"P": "1", "C": "2"}, "bound": -1, "label": "1 proxy x 2 clients, unbounded", "budget_s": 200},
-            {"harness": "c04", "cfg": {"P": "2", "C": "1"}, "bound": -1, "label": "2 proxies x 1 client, unbounded", "budget_s": 200},
-            {"harness": "c04", "cfg": {"P": "2", "C": "2"}, "bound": 2, "label": "2 proxies x 2 clients, pb<=2", "budget_s": 300},
+            {"harness": "c04", "cfg": {"P": "1", "C": "1"}, "label": "1 proxy x 1 client: " + U},
+            {"harness": "c04", "cfg": {"P": "1", "C": "2"}, "label": "1 proxy x 2 clients: " + U, "budget_s": 100},
+            {"harness": "c04", "cfg": {"P": "2", "C": "1"}, "label": "2 proxies x 1 client: " + U, "budget_s": 100},
+            {"harness": "c04", "cfg": {"P": "2", "C": "2"}, "label": "2 proxies x 2 clients: " + U, "budget_s": 500},
+            {"harness": "c04", "cfg": {"P": "1", "C": "1"}, "bound": 2, "label": "1 proxy x 1 client, pb<=2 without reduction (cross-check of the reduction)", "budget_s": 60},
         ]
         total = 900
     summary, tot, samples, exh = sched.run_passes(rep, binary, passes, total)
